@@ -64,17 +64,21 @@ Theorem every_iteration_leaves_room : forall bs sched k, Forall wf_block bs -> s
 Proof. exact every_iteration_leaves_room_lemma. Qed.
 Print Assumptions every_iteration_leaves_room.
 
-(* The full-buffer iteration (only reachable through data-carrying failing reads) on 33 blocks of MaxNDNPacketSize bytes: the
-   buffer fills exactly with 32 unparsed blocks; the next iteration hands up the 32 blocks and frees the buffer; the rest follows. *)
+(* The full-buffer iteration (only reachable through data-carrying failing reads), all numbers computed from the translated
+   constants: k + 1 blocks of n bytes (n just under MaxNDNPacketSize), k = buffer size / n.  One failing read fills the buffer to the
+   last byte, nothing parsed; the next iteration hands up the k complete blocks and frees the buffer; the rest follows. *)
 Theorem full_buffer_settles :
-  let b := mk_block 6 (repeat 1 (N.to_nat 8796)) in
-  let bs := repeat b 33 in
-  lenN b = c_MaxNDNPacketSize /\
-  (let '(r, _, c, st) := run true (concat bs) [RIgn 300000] in (r, c, recvOff st)) = (SOk, c_recvBufSize, c_recvBufSize) /\
-  (let '(r, fr, c, st) := run true (concat bs) [RIgn 300000; RIgn 300000] in (r, frames_eqb fr (repeat b 32), c, recvOff st))
-     = (SOk, true, 290400, 8800) /\
-  (let '(r, fr, c, st) := run true (concat bs) [RIgn 300000; RReq 300000] in (r, frames_eqb fr bs, c, recvOff st))
-     = (SOk, true, 290400, 0).
+  let b := mk_block 6 (repeat 1 (N.to_nat (c_MaxNDNPacketSize - 10))) in
+  let n := lenN b in
+  let k := c_recvBufSize / n in
+  let bs := repeat b (N.to_nat (k + 1)) in
+  let big := 2 * c_recvBufSize in
+  n <= c_MaxNDNPacketSize /\
+  (let '(r, _, c, st) := run true (concat bs) [RIgn big] in (r, c, recvOff st)) = (SOk, c_recvBufSize, c_recvBufSize) /\
+  (let '(r, fr, c, st) := run true (concat bs) [RIgn big; RIgn big] in (r, frames_eqb fr (repeat b (N.to_nat k)), c, recvOff st))
+     = (SOk, true, (k + 1) * n, n) /\
+  (let '(r, fr, c, st) := run true (concat bs) [RIgn big; RReq big] in (r, frames_eqb fr bs, c, recvOff st))
+     = (SOk, true, (k + 1) * n, 0).
 Proof. exact full_buffer_settles_lemma. Qed.
 Print Assumptions full_buffer_settles.
 
